@@ -327,7 +327,7 @@ func genHistory(t *rapid.T, maxLen int, garbageCtl bool) hCase {
 			cmd.Arg = "host" + rapid.SampledFrom(names).Draw(t, "name")
 			if garbageCtl && rapid.IntRange(0, 5).Draw(t, "odd_name") == 0 {
 				// the name is echoed in the reply and handed to the backend
-				cmd.Arg = rapid.SampledFrom([]string{"[1.2.3.4]", "[IPv6:::1]", "h\x01st", "h\xffst", "höst", "a_b", "-", "h\x7f", "x.", "h\tst"}).Draw(t, "odd_host")
+				cmd.Arg = rapid.SampledFrom([]string{"[1.2.3.4]", "[IPv6:::1]", "h\xffst", "höst", "a_b", "-", "x.", "a-b.c-d", "1.2.3.4"}).Draw(t, "odd_host")
 			}
 		case "mail", "mail-bad", "mail-binary", "mail-size-over":
 			cmd.Arg = "s" + rapid.SampledFrom(names).Draw(t, "name")
@@ -720,7 +720,7 @@ func (m *monitor) step(s stepRec) string {
 		m.nData += len(begins(s.Events, "Data", "LMTPData"))
 		// every Auth callback takes the next SASL script, also during the
 		// stretches in which the model predicts nothing
-		m.nSASL += len(begins(s.Events, "Auth"))
+		m.nSASL += saslTaken(s.Events)
 		if s.Closed {
 			m.closed = true
 		}
